@@ -373,6 +373,33 @@ func main() {
 			}
 		}
 
+		// 4c. run.go `_case`, type-switch branch: since 9f81224 every clause form goes through one helper,
+		//     matchCase(f, v, typ) (unwrap to the dynamic type; identity for concrete clause types; method
+		//     set + needsPtrFor for interface clause types; the nil type matches a nil interface only);
+		//     before, three matchers compared type identifiers / representation types (implementsInterface)
+		caseUsesMatchCase := false
+		caseHelper := "implementsInterface"
+		if fd := common.FindFunc(fr, "", "_case"); fd == nil {
+			unrec = append(unrec, "run.go: _case not found")
+		} else {
+			mc := common.FindFunc(fr, "", "matchCase")
+			switch {
+			case mc != nil && contains(fd.Body, "if _, ok := matchCase(f, v, typ); ok { return tnext }") &&
+				contains(fd.Body, "val, ok := matchCase(f, v, typ)") && !contains(fd.Body, "implementsInterface") &&
+				contains(mc.Body, "if typ.cat == nilT || !val.IsValid() { return reflect.Value{}, typ.cat == nilT && !val.IsValid() }") &&
+				contains(mc.Body, "if dtyp != nil { return val, dtyp.id() == typ.id() } return val, val.Type() == ft") &&
+				contains(mc.Body, "case !dtyp.methods().contains(typ.methods()) || dtyp.needsPtrFor(typ): return reflect.Value{}, false") &&
+				contains(mc.Body, "case dtyp == nil: if !valueTOf(val.Type()).methods().contains(typ.methods()) { return reflect.Value{}, false }") &&
+				contains(mc.Body, "if dnode != nil && dnode.typ.cat != nilT && !isInterface(dnode.typ) { dtyp = dnode.typ }"):
+				caseUsesMatchCase = true
+				caseHelper = "matchCase"
+			case mc == nil && contains(fd.Body, "implementsInterface(v, typ)") && contains(fd.Body, "if v.typ.id() == typ.id() { return tnext }"):
+				// the three matchers of the old code
+			default:
+				unrec = append(unrec, "run.go _case: the matcher of the type-switch clauses is not recognised")
+			}
+		}
+
 		// 5. genFunctionWrapper: the receiver binding. Three shapes are recognised:
 		//    since 32d4f06: the switch stands in the closure `bindRecv := func() reflect.Value {…}` (arms
 		//    `return copyDeferArg(x)` copy, `return x` x itself); `late = n.recv.node == nil`; outside the
@@ -696,7 +723,7 @@ func main() {
 		hT := common.HashTable(fsT, ft, [][2]string{{"itype", "lookupField"}, {"itype", "fieldIndex"}, {"itype", "lookupMethod"}, {"itype", "lookupMethod2"},
 			{"itype", "getMethod"}, {"itype", "methodDepth"}, {"itype", "methodCount"}, {"itype", "fieldCount"}, {"itype", "needsPtrFor"}, {"itype", "needsPtrForMethod"}, {"itype", "methods"}, {"methodSet", "contains"}, {"itype", "implements"}, {"", "lookupFieldOrMethod"}})
 		hC := common.HashTable(fsC, fc, [][2]string{{"", "matchSelectorMethod"}, {"", "getDefault"}})
-		hR := common.HashTable(fsR, fr, [][2]string{{"", "typeAssert"}, {"", "_case"}, {"", "implementsInterface"}, {"", "canAssertTypes"},
+		hR := common.HashTable(fsR, fr, [][2]string{{"", "typeAssert"}, {"", "_case"}, {"", caseHelper}, {"", "canAssertTypes"},
 			{"", "getMethod"}, {"", "getMethodByName"}, {"", "lookupMethodValue"}, {"", "stripReceiverFromArgs"}, {"", "genFunctionWrapper"}, {"", "genFunctionWrapperFor"}, {"", "genHostFunctionWrapper"}, {"", "genInterfaceWrapper"}, {"", "genInterfaceWrapperValue"}, {"", "copyDeferArg"}})
 		hK := common.HashTable(fsK, fk, [][2]string{{"typecheck", "typeAssertionExpr"}})
 		hV := common.HashTable(fsV, fv, [][2]string{{"", "genDestValue"}, {"", "genValueInterface"}, {"", "genValueRecv"}})
@@ -720,6 +747,7 @@ def facts : Facts :=
     assertPtrOwnOnly := %v,
     assertPtrNeedsPtr := %v,
     tswitchCasesChecked := %v,
+    caseUsesMatchCase := %v,
     assertHostWrapsHeld := %v,
     wrapperUsesMethodSet := %v,
     recvBind := { atCreation := %v, ptrToVal := .%s, valToPtr := .%s, same := .%s, call := .%s,
@@ -745,7 +773,7 @@ def sourceHashes : List (String × String) :=
    ("cfg.go post-order case typeSwitch", %s),
    ("genFunctionWrapper receiver binding", %s)]
 end YaegiVerif.Generated.C05
-`, defaultSwap, clauseChain, methodPick, ambCheck, embedOnly, fieldPick, namesOnly, common.LeanStr(methodWins), common.LeanStr(ambiguous), depthMinus, fieldAmb, implPtr, assertPtrOwnOnly, assertPtrNeedsPtr, tswitchChecked, assertHostHeld, wrapperUsesMethodSet,
+`, defaultSwap, clauseChain, methodPick, ambCheck, embedOnly, fieldPick, namesOnly, common.LeanStr(methodWins), common.LeanStr(ambiguous), depthMinus, fieldAmb, implPtr, assertPtrOwnOnly, assertPtrNeedsPtr, tswitchChecked, caseUsesMatchCase, assertHostHeld, wrapperUsesMethodSet,
 			atCreation, bind["ptrToVal"], bind["valToPtr"], bind["same"], bind["call"], lateNilNode, bind["lateCall"], ifaceWrapHeld, ifaceCopies, composed,
 			common.LeanStrList(unrec), hT, hC, hR, hK, hV, hU, common.LeanStr(selHash), common.LeanStr(preHash), common.LeanStr(postHash), common.LeanStr(tsHash), common.LeanStr(recvHash)), nil
 	})
